@@ -64,12 +64,17 @@ def run(ctx):
                         "# C14: %s\n# schedule: the handle's thread runs the operation; between two of its critical sections (lock free) another thread calls entry(\"/obs\").len()\n# replay: harness locks --atomic\n" % msg[:1500])
     # unsteered stress
     rc, st = C.harness(["locks", "--stress", "--readers", 3, "--millis", 1500 if quick else 20000], timeout=120)
+    for l in st.splitlines():
+        if l.startswith("wrong "):
+            C.add_violation(ctx, "stress:wrong-answer", "a read-only call made while other readers and a handle thread were running answered wrongly: " + l[6:300],
+                            "# C14: %s\n# schedule: unsteered, 3 reader threads + the handle's thread\n# replay: harness locks --stress --readers 3 --millis 1500\n" % l[6:1500])
+            break
     if "deadlock" in st:
         C.add_violation(ctx, "stress:deadlock", "3 reader threads + 1 handle thread made no progress (unsteered)", "# replay: harness locks --stress --readers 3 --millis 1500\n")
     ctx.coverage.update({
         "evaluations": len(ops_lines),
         "distinct_nontrivial": len(set(ops_lines)),
-        "rule": "per-call lock traces (hook H1: mode and hold depth before every acquisition) of every public read-only method, both iterator orders to exhaustion and partially, every handle operation and every mutating API call, on trees with left/right spines and nested children, both versions; each call's program is rebuilt and checked flat by the Lean definition (the hypothesis of C14_no_deadlock); plus one steered two-thread schedule, an unsteered 3-readers-vs-writer stress run on the implementation, and the atomic-view observation: during 19 handle operations per version (buffered writes of 300-900 KiB, flushes, set_len, reads) a read-only call is made at every point where the handle's thread is about to take the lock while holding none — every state a concurrent reader could see — and must see the stream's length before the operation, after a whole flush, or after the operation",
+        "rule": "per-call lock traces (hook H1: mode and hold depth before every acquisition) of every public read-only method, both iterator orders to exhaustion and partially, every handle operation and every mutating API call, on trees with left/right spines and nested children, both versions; each call's program is rebuilt and checked flat by the Lean definition (the hypothesis of C14_no_deadlock); plus one steered two-thread schedule, an unsteered 3-readers-vs-writer stress run on the implementation in which every reader's answer is checked (lookups of non-ASCII sibling names of equal length included), and the atomic-view observation: during 19 handle operations per version (buffered writes of 300-900 KiB, flushes, set_len, reads) a read-only call is made at every point where the handle's thread is about to take the lock while holding none — every state a concurrent reader could see — and must see the stream's length before the operation, after a whole flush, or after the operation",
         "samples": ops_lines[6:9],
         "steered_schedule": steer_out.strip()[-40:],
         "atomic_view_operations": astat.get("evaluations", 0),
